@@ -275,6 +275,11 @@ class Runaway(Exception):
     """ The execution is far longer than any scenario needs (e.g. a restart storm): it is cut, and reported as such. """
 
 
+HANDSHAKE_METHODS = ('supvisors.get_network_info', 'supvisors.get_instance_info', 'supvisors.get_strategies',
+                     'supvisors.get_instance_state_modes', 'supvisors.get_all_instances_state_modes',
+                     'supvisors.get_all_local_process_info')
+
+
 class Livelock(BaseException):
     """ One scheduler step (one call into an instance) keeps producing observable actions without ever returning:
     virtual time cannot advance any more. Not an Exception, so that the last-resort guards of the code under test do
@@ -657,6 +662,7 @@ class World:
         self.max_start_requests = scenario.get('max_start_requests', 4000)
         self.start_requests_seen = 0
         self.hook_step, self.hooks_in_step = -1, 0
+        self.handshake_skew = scenario.get('sched', {}).get('handshake_skew')
         self.max_hooks_per_step = scenario.get('max_hooks_per_step', 20000)
         self.restart_delay = sched.get('restart_delay', (0.5, 3.0))
         self.auto_reboot = scenario.get('auto_reboot', True)
@@ -902,6 +908,9 @@ class World:
             return
         dst_nick = self.by_identifier.get(proxy.status.identifier, '?')
         when = max(self.now + self.draw_delay(proxy.inst.nick, dst_nick), proxy.next_free + self.service_time)
+        if self.handshake_skew and proxy.ready:
+            # not before the end of the step that pushed the message
+            when = max(when, proxy.ready[-1])
         proxy.next_free = when
         proxy.pending_steps += 1
         self.at(when, proxy.step)
@@ -975,6 +984,11 @@ class World:
             # the rest of the callee's loop iteration runs right after the request has been served
             if dst.alive:
                 dst.loop_tail()
+        if self.handshake_skew and proxy is not None and src_inst is not None and dst is not src_inst and \
+                method in HANDSHAKE_METHODS:
+            # time spent by the proxy 'thread' in this XML-RPC of a handshake: what it pushes afterwards is delivered
+            # that much later (and stamped accordingly), while publications of the peer keep arriving meanwhile
+            src_inst.step_skew += self.rng.choice(self.handshake_skew)
         if fault is not None:
             self.emit('rpc_fault', code=fault.faultCode, text=fault.faultString, **rec)
             raise fault
@@ -1074,6 +1088,7 @@ class World:
 
         wrap_quiet(sv.fsm, 'on_timer_event', 'fsm_timer')
         wrap_quiet(sv.fsm, 'on_process_state_event', 'fsm_process_event')
+        wrap_quiet(sv.fsm, 'on_state_event', 'fsm_state_event')
         wrap_quiet(sv.context, 'on_tick_event', 'ctx_tick')
         wrap_quiet(sv.context, 'on_local_tick_event', 'ctx_local_tick')
         wrap_quiet(sv.context, 'on_timer_event', 'ctx_timer')
